@@ -18,6 +18,7 @@ mod c12;
 mod c15;
 mod c08;
 mod c07;
+mod c16;
 
 use common::Tier;
 
@@ -46,6 +47,7 @@ fn main() {
         "C15" => c15::run(tier),
         "C08" => c08::run(tier),
         "C07" => c07::run(tier),
+        "C16" => c16::run(tier),
         "bind" => { let r = samples::bind_or_die(); println!("rsig ok {} rejected {} ; rdl validations {} exec-error {} skipped {:?}", r.rsig_accepted, r.rsig_rejected, r.rdl_validations, r.rdl_exec_error_validations, r.rdl_skipped); }
         other => {
             eprintln!("unknown property {other}");
